@@ -47,19 +47,43 @@ impl PostConversionLinter for BuiltInLinter {
     }
 
     fn visit_expression(&mut self, expr_pos: &ExpressionPos) -> Result<(), LintErrorPos> {
-        let pos = expr_pos.pos();
-        match &expr_pos.element {
+        self.visit_expression_at(&expr_pos.element, expr_pos.pos())
+    }
+}
+
+impl BuiltInLinter {
+    /// Lints the built-in function calls found anywhere inside the given expression.
+    fn visit_expression_at(
+        &mut self,
+        expr: &Expression,
+        pos: Position,
+    ) -> Result<(), LintErrorPos> {
+        match expr {
             Expression::BuiltInFunctionCall(built_in_function, args) => {
                 for x in args {
                     self.visit_expression(x)?;
                 }
                 lint_function_call(built_in_function, pos, args)
             }
+            Expression::FunctionCall(_, args) => {
+                for x in args {
+                    self.visit_expression(x)?;
+                }
+                Ok(())
+            }
+            Expression::ArrayElement(_, args, _) => {
+                for x in args {
+                    self.visit_expression(x)?;
+                }
+                Ok(())
+            }
             Expression::BinaryExpression(_, left, right, _) => {
                 self.visit_expression(left)?;
                 self.visit_expression(right)
             }
             Expression::UnaryExpression(_, child) => self.visit_expression(child),
+            Expression::Parenthesis(child) => self.visit_expression(child),
+            Expression::Property(owner, _, _) => self.visit_expression_at(owner, pos),
             _ => Ok(()),
         }
     }
